@@ -842,6 +842,13 @@ def main():
                     r["entry"]["mem_gb"] = 3
         else:
             sel = recs
+            for r in sel:
+                # measured / estimated as beyond this machine's budget (> 2400 s or > 6 GB): kept, selectable
+                # with --tier heavy, not part of the registered thorough tier
+                if r["family"] != "obj" and (r["weight"] > 45 or (r["kinds"] & {"tune_param", "sha256"}) or any(x in r["entry"]["name"] for x in HEAVY_NAMES)):
+                    r["entry"]["tier"] = "heavy"
+                    r["entry"]["mem_gb"] = 16
+                    r["entry"]["timeout_s"] = 2400
         for r in sel:
             files[r["crate"]].append(r["code"])
             entries.append(r["entry"])
